@@ -93,6 +93,10 @@ M = [
      "                parent_task.children.append(task)\n                task.parent = parent_task\n            else:\n                roots.append(task)\n        else:\n            roots.insert(0, task)", 'row-order'),
     ('children', 'Task.__init__', 'pjplan/task.py', "        if successors:\n            self.successors = successors\n        if predecessors:\n            self.predecessors = predecessors", "        if successors:\n            self.successors = successors\n        if predecessors:\n            self.successors = predecessors", 'as-given'),
     ('children', 'Task.__init__', 'pjplan/task.py', "        if successors:\n            self.successors = successors\n        if predecessors:", "        if successors:\n            self.__successors = successors\n        if predecessors:", ''),
+    ('children', '_ImmutableTaskList.__lshift__', 'pjplan/task.py', "        for t in self:\n            t.predecessors += other\n        return other", "        for t in self:\n            t.successors += other\n        return other", 'every-member'),
+    ('children', '_ImmutableTaskList.__lshift__', 'pjplan/task.py', "        for t in self:\n            t.predecessors += other\n        return other", "        for t in self:\n            t.predecessors += other\n            break\n        return other", 'every-member'),
+    ('children', '_ImmutableTaskList.__rshift__', 'pjplan/task.py', "        for t in self:\n            t.successors += other\n        return other", "        for t in self:\n            t.successors = other\n        return other", 'every-member'),
+    ('children', '_ImmutableTaskList.__rshift__', 'pjplan/task.py', "        for t in self:\n            t.successors += other\n        return other", "        for t in self:\n            t.successors += other\n        return self", 'returns'),
     ('loops', '_check_loops_from_task', 'pjplan/schedule.py', "    visited_tasks.add(task.id)\n\n    for s in task.predecessors:", "    for s in task.predecessors:", 'KeyError'),
     ('loops', '_check_loops_from_task', 'pjplan/schedule.py', "    visited_tasks.remove(task.id)\n    validated.add(task.id)", "    validated.add(task.id)", 'visited-set-is-restored'),
     ('loops', '_check_loops_from_task', 'pjplan/schedule.py', "    visited_tasks.remove(task.id)\n    validated.add(task.id)", "    visited_tasks.remove(task.id)\n    validated.remove(task.id)", 'KeyError'),
